@@ -8,7 +8,9 @@ package storage
 
 //@ func (MintDB).SaveProofs(ps)
 //@   trusted
-//@   modifies db.spent, db.spentrow, db.faults
+//@   modifies db.spent, db.spentrow, db.faults, db.redeemedtotal
+//@   ensures err == nil ==> db.redeemedtotal == old(db.redeemedtotal) + sum.proof.amount(seq(ps), len(ps))
+//@   ensures err != nil ==> db.redeemedtotal == old(db.redeemedtotal)
 //@   ensures db.faults >= old(db.faults)
 //@   ensures err == nil <==> (db.faults == old(db.faults) && (forall i :: 0 <= i && i < len(ps) ==> !old(db.spent)[Yof(ps[i].Secret)]) && (forall i, j :: 0 <= i && i < j && j < len(ps) ==> Yof(ps[i].Secret) != Yof(ps[j].Secret)))
 //@   ensures err != nil ==> db.spent == old(db.spent) && db.spentrow == old(db.spentrow)
@@ -75,7 +77,9 @@ package storage
 
 //@ func (MintDB).SaveBlindSignatures(B_s, blindSignatures)
 //@   trusted
-//@   modifies db.sig, db.sigrow, db.faults
+//@   modifies db.sig, db.sigrow, db.faults, db.issuedtotal
+//@   ensures err == nil ==> db.issuedtotal == old(db.issuedtotal) + sum.sig.amount(seq(blindSignatures), len(blindSignatures))
+//@   ensures err != nil ==> db.issuedtotal == old(db.issuedtotal)
 //@   requires @lens [C06] len(B_s) >= len(blindSignatures)
 //@   requires @dleq [C06] forall i :: 0 <= i && i < len(blindSignatures) ==> blindSignatures[i].DLEQ != nil
 //@   ensures db.faults >= old(db.faults)
@@ -94,14 +98,15 @@ package storage
 
 // Invariant of stored mint quotes: the state column only ever holds one of the
 // four states (SaveMintQuote / UpdateMintQuoteState write State.String()).
-//@ macro mintinv(r) = r.State == nut04.Unpaid || r.State == nut04.Paid || r.State == nut04.Issued || r.State == nut04.Pending
+//@ macro mintinv(r) = (r.State == nut04.Unpaid || r.State == nut04.Paid || r.State == nut04.Issued || r.State == nut04.Pending) && decode.msat(r.PaymentRequest) == r.Amount * 1000 && decode.hash(r.PaymentRequest) == r.PaymentHash
 
 //@ func (MintDB).SaveMintQuote(mq)
 //@   trusted
 //@   requires @mintinv [C03] mintinv(mq)
 //@   modifies db.mq, db.mqrow, db.faults
 //@   ensures db.faults >= old(db.faults)
-//@   ensures err == nil <==> (db.faults == old(db.faults) && !old(db.mq)[mq.Id])
+//@   ensures err == nil ==> db.faults == old(db.faults) && !old(db.mq)[mq.Id] && mq.Amount < 9223372036854775808
+//@   ensures db.faults == old(db.faults) && !old(db.mq)[mq.Id] && mq.Amount < 9223372036854775808 ==> err == nil
 //@   ensures err != nil ==> db.mq == old(db.mq) && db.mqrow == old(db.mqrow)
 //@   ensures err == nil ==> db.mq == upd(old(db.mq), mq.Id, true) && db.mqrow == upd(old(db.mqrow), mq.Id, mq)
 
@@ -110,13 +115,13 @@ package storage
 //@   modifies db.faults
 //@   ensures db.faults >= old(db.faults)
 //@   ensures err == nil <==> (db.faults == old(db.faults) && db.mq[id])
-//@   ensures err == nil ==> r0 == db.mqrow[id] && r0.Id == id && mintinv(r0)
+//@   ensures err == nil ==> r0 == db.mqrow[id] && r0.Id == id && mintinv(r0) && r0.Amount < 9223372036854775808
 
 //@ func (MintDB).GetMintQuoteByPaymentHash(hash)
 //@   trusted
 //@   modifies db.faults
 //@   ensures db.faults >= old(db.faults)
-//@   ensures err == nil ==> db.mq[r0.Id] && r0 == db.mqrow[r0.Id] && r0.PaymentHash == hash && mintinv(r0)
+//@   ensures err == nil ==> db.mq[r0.Id] && r0 == db.mqrow[r0.Id] && r0.PaymentHash == hash && mintinv(r0) && r0.Amount < 9223372036854775808
 //@   ensures err != nil && db.faults == old(db.faults) ==> (forall q Str :: db.mq[q] ==> db.mqrow[q].PaymentHash != hash)
 //@   ensures err == nil ==> db.faults == old(db.faults)
 
@@ -131,7 +136,7 @@ package storage
 
 // Invariant of stored melt quotes (established by RequestMeltQuote, the only
 // inserter; UpdateMeltQuote does not touch these fields).
-//@ macro meltinv(r) = (r.State == nut05.Unpaid || r.State == nut05.Pending || r.State == nut05.Paid) && (r.State != nut05.Paid ==> r.Preimage == "") && r.Amount <= 9223372036854775 && r.FeeReserve <= r.Amount && (r.IsMpp ==> r.FeeReserve == ln.fee(r.AmountMsat / 1000))
+//@ macro meltinv(r) = (r.State == nut05.Unpaid || r.State == nut05.Pending || r.State == nut05.Paid) && (r.State != nut05.Paid ==> r.Preimage == "") && r.Amount <= 9223372036854775 && r.FeeReserve <= r.Amount && (r.IsMpp ==> r.FeeReserve == ln.fee(r.AmountMsat / 1000)) && (!r.IsMpp ==> r.Amount == decode.msat(r.InvoiceRequest) / 1000) && decode.hash(r.InvoiceRequest) == r.PaymentHash
 
 //@ func (MintDB).SaveMeltQuote(mq)
 //@   trusted
@@ -175,3 +180,25 @@ package storage
 //@   ensures err == nil <==> (db.faults == old(db.faults) && db.sig[B_])
 //@   ensures err == nil ==> r0.Amount == db.sigrow[B_].Amount && r0.C_ == db.sigrow[B_].C_ && r0.Id == db.sigrow[B_].Id && r0.DLEQ != nil && r0.DLEQ.E == db.sigrow[B_].E && r0.DLEQ.S == db.sigrow[B_].S
 //@   ensures err.is(err, sql.ErrNoRows) <==> (err != nil && db.faults == old(db.faults))
+
+// The two views total_issued / total_redeemed: per keyset sums over
+// blind_signatures / proofs; their grand totals are the ghost totals.
+//@ func (MintDB).GetIssuedEcash
+//@   trusted
+//@   modifies db.faults
+//@   ensures err == nil <==> db.faults == old(db.faults)
+//@   ensures err == nil ==> r0 != nil && mapsum.str(mapkeys(r0), mapvals(r0)) == db.issuedtotal
+
+//@ func (MintDB).GetRedeemedEcash
+//@   trusted
+//@   modifies db.faults
+//@   ensures err == nil <==> db.faults == old(db.faults)
+//@   ensures err == nil ==> r0 != nil && mapsum.str(mapkeys(r0), mapvals(r0)) == db.redeemedtotal
+
+// sqlite refuses uint64 values with the high bit set
+//@ func (MintDB).SaveSeed
+//@   trusted
+//@   modifies db.faults
+//@ func (MintDB).GetSeed
+//@   trusted
+//@   modifies db.faults
